@@ -118,8 +118,10 @@ type Interp struct {
 	sets     map[*Loc]*SetObj
 	decs     map[*Loc]Value
 	hashSeen []string
+	uuidStrs map[*Term]Value
 	ghost    map[string]Value
 	conc     *concState
+	mapOrderOverride int
 }
 
 type Frame struct {
@@ -201,6 +203,13 @@ func (in *Interp) choose(alts func() []int) int {
 	in.trail = append(in.trail, decision{alts: a})
 	in.pos++
 	return a[0]
+}
+
+func (in *Interp) mapOrderMax() int {
+	if in.mapOrderOverride >= 0 {
+		return in.mapOrderOverride
+	}
+	return in.cfg.MapOrderMax
 }
 
 func (in *Interp) replaying() bool { return in.pos < len(in.trail) }
@@ -459,6 +468,8 @@ func (in *Interp) runOnce(fn *ssa.Function) {
 	in.globals = map[*ssa.Global]*Loc{}
 	in.initDone = map[*ssa.Package]bool{}
 	in.hashSeen = nil
+	in.uuidStrs = map[*Term]Value{}
+	in.mapOrderOverride = -1
 	in.steps = 0
 	in.depth = 0
 	in.delaysLeft = 0
@@ -582,6 +593,14 @@ func (in *Interp) call(fn *ssa.Function, args []Value, binds []Value) Value {
 	if st, ok := in.stubs[name]; ok {
 		return st(in, fn, args)
 	}
+	return in.callBodyB(fn, args, binds)
+}
+
+// callBody interprets fn from its SSA body (no stub lookup).
+func (in *Interp) callBody(fn *ssa.Function, args []Value) Value { return in.callBodyB(fn, args, nil) }
+
+func (in *Interp) callBodyB(fn *ssa.Function, args []Value, binds []Value) Value {
+	name := fnName(fn)
 	if rd, ok := in.cfg.Redirects[name]; ok && fn.Pkg != nil {
 		if h := fn.Pkg.Func(rd); h != nil {
 			return in.call(h, args, nil)
@@ -976,7 +995,7 @@ func (in *Interp) eval(fr *Frame, v ssa.Value) Value {
 				}
 				for len(remaining) > 0 {
 					k := 0
-					if len(remaining) > 1 && n <= in.cfg.MapOrderMax {
+					if len(remaining) > 1 && n <= in.mapOrderMax() {
 						r := remaining
 						k = in.choose(func() []int {
 							a := make([]int, len(r))
